@@ -143,6 +143,8 @@ func run(c *fw.Ctx) {
 	seqPart(c, mine)
 	// value carried by a wrapped Ethereum transaction down to the contract executor
 	carriedPart(c, mine)
+	// token balances re-scaled at the account database's boundary, every decimal count
+	ftPart(c, mine)
 
 	// (1) all small integers
 	lim := int64(1000000)
@@ -307,6 +309,11 @@ func replay(c *fw.Ctx, raw json.RawMessage) {
 		var sc seqCase
 		json.Unmarshal(raw, &sc)
 		seqOne(c, sc.A, sc.B, sc.Dec)
+	case "ft":
+		var fc ftCase
+		json.Unmarshal(raw, &fc)
+		carriedSetup()
+		ftOne(c, fc.Dec, fc.X, fc.Y, fc.Z)
 	case "carried":
 		n, _ := new(big.Int).SetString(k.N, 10)
 		carriedSetup()
